@@ -63,6 +63,7 @@ type APtr struct {
 	slice *ASlice // element pointer: slice + index
 	idx   *AInt
 	null  bool
+	tbl   *constTable // element pointer into a constant table (consttable.go): idx + path
 }
 
 // Obj is an abstract memory object.
